@@ -32,7 +32,11 @@ RULE = ("hdr: one case = (PDU type, every header field value, payload); enumerat
         "must not be emitted), plus for every octet field all 256 values on two backgrounds; a case is distinct by that tuple "
         "(perfect packing, the three library paths it is pushed through are not counted separately).  trunc/tot: one case = "
         "one octet string, distinct by its octets (length-3 strings are counted per (octet0, octet1) only, the third octet "
-        "is swept under that key).  tab: one case = (function, argument).")
+        "is swept under that key).  tab: one case = (function, argument).  stale/reuse: every ordered pair of the stale "
+        "headers (every type x flag combination): decoded one after the other into one object and re-encoded; one object "
+        "given the first header's fields, encoded, given the second's, encoded again; two typed PDUs encoded one after the "
+        "other into one staging APDU (the second also with its off flags left unset) - the last header emitted must be "
+        "the second's.")
 ASSUMPTIONS = [
     "octet fields are covered at the stated alphabet in cross product and at all 256 values one field at a time; a defect "
     "that needs two specific interior values in two fields at once is outside the bound",
@@ -806,9 +810,69 @@ def reuse_decode_typed(first, second):
     return ("ok", got, bytes(p.pduData), bytes(pdu.pduData))
 
 
+def make_typed_sparse(f):
+    """As make_typed, but a flag that is off is left the way the constructor leaves it (None) instead of being set to 0 -
+    the way most callers build an unsegmented request or answer."""
+    t = f["type"]
+    if t == 0:
+        p = bp.ConfirmedRequestPDU(f["service"])
+        p.apduMaxSegs, p.apduMaxResp, p.apduInvokeID = f["maxsegs"], f["maxresp"], f["invoke"]
+    elif t == 3:
+        p = bp.ComplexAckPDU(f["service"], f["invoke"])
+    elif t == 4:
+        p = bp.SegmentAckPDU(1 if f["nak"] else None, 1 if f["srv"] else None, f["invoke"], f["seq"], f["win"])
+    elif t == 7:
+        p = bp.AbortPDU(1 if f["srv"] else None, f["invoke"], f["reason"])
+    else:
+        return make_typed(f, None)
+    if t in (0, 3):
+        for key, attr in (("seg", "apduSeg"), ("mor", "apduMor"), ("sa", "apduSA")):
+            if f.get(key):
+                setattr(p, attr, 1)
+        if f["seg"]:
+            p.apduSeq, p.apduWin = f["seq"], f["win"]
+    return p
+
+
+def reuse_encode(path, first, second, payload):
+    """One header object is given the fields of `first` and encoded, then the fields of `second` and encoded again
+    (APCI, APDU); "staging": two typed PDUs are encoded one after the other into ONE generic APDU (the buffer between
+    the typed classes and the wire), which is then encoded; "staging-sparse": the same with the second PDU's off flags
+    left unset.  -> ("octets", bytes of the last encoding) | ("raises", name)"""
+    try:
+        if path in ("staging", "staging-sparse"):
+            a = bp.APDU()
+            for k, f in enumerate((first, second)):
+                p = make_typed_sparse(f) if (k == 1 and path == "staging-sparse") else make_typed(f, None)
+                if ref.CARRIES_DATA[f["type"]]:
+                    p.put_data(payload)
+                p.encode(a)
+            pdu = PDU()
+            a.encode(pdu)
+        else:
+            a = bp.APCI() if path == "APCI" else bp.APDU()
+            if path == "APDU":
+                a.put_data(payload)
+            for f in (first, second):
+                set_generic(a, f, None)
+                pdu = PDU()
+                a.encode(pdu)
+    except Exception as err:
+        return ("raises", type(err).__name__)
+    return ("octets", bytes(pdu.pduData))
+
+
 def judge_reuse(fa, fb, payload):
     problems = {}
     ha, hb = ref.build_header(fa), ref.build_header(fb)
+    # encoding: what the object was given and emitted before may not show in what it emits now (the header octets are
+    # judged; the payload of a staging buffer that is filled twice is the caller's business)
+    for path in ("APCI", "APDU", "staging", "staging-sparse"):
+        r = reuse_encode(path, fa, fb, payload)
+        if r[0] == "raises":
+            problems.setdefault(("reuse", "second-encoding-of-the-same-object:raises-" + r[1]), []).append(path)
+        elif r[1][:len(hb)] != hb or (path == "APCI" and r[1] != hb):
+            problems.setdefault(("reuse", "second-encoding-of-the-same-object:header-octets-differ"), []).append(path)
     if fa["type"] == fb["type"]:
         carries = ref.CARRIES_DATA[fb["type"]]
         pa = (payload + b"\x5A\xA5") if carries else b""
